@@ -135,6 +135,7 @@ func c17TagSig(rs []*c17Route) string {
 // endEvent: quiescence after one event; bookkeeping for the attribution of later differences.
 func (h *c17Hist) endEvent() {
 	synctest.Wait()
+	h.expireGR()
 	i := len(h.evKind)
 	h.evKind = append(h.evKind, h.curKind)
 	h.evActor = append(h.evActor, h.curActor)
@@ -148,6 +149,17 @@ func (h *c17Hist) endEvent() {
 	if err != nil {
 		h.bestTags = append(h.bestTags, nil)
 		return
+	}
+	if simDebug {
+		_, all, _ := h.globalBest()
+		var l []string
+		for _, f := range c17VPNFams {
+			for _, g := range all[f] {
+				l = append(l, fmt.Sprintf("%s<%s#%d t%d", g.dest, g.src, g.id, g.tag))
+			}
+		}
+		sort.Strings(l)
+		fmt.Printf("SIMDBG TABLE after %d: %v\n", i, l)
 	}
 	bt := map[uint32]bool{}
 	for _, b := range best {
@@ -346,12 +358,12 @@ func c17TagOfAttrs(attrs string) uint32 {
 func (h *c17Hist) witness(at string) map[string]any {
 	var peers, vrfs []string
 	for _, p := range h.peers {
-		peers = append(peers, fmt.Sprintf("%s %s %s as%d vrf=%q addpath-vpn=%v addpath-rtc=%v deferral=%d up=%v", p.addr(), p.role, p.spec.Kind, p.spec.AS, p.vrf, p.apVPN, p.apRTC, p.deferral, p.up))
+		peers = append(peers, fmt.Sprintf("%s %s %s as%d vrf=%q addpath-vpn=%v addpath-rtc=%v deferral=%d gr=%d up=%v", p.addr(), p.role, p.spec.Kind, p.spec.AS, p.vrf, p.apVPN, p.apRTC, p.deferral, p.gr, p.up))
 	}
 	for _, v := range h.vrfs {
 		vrfs = append(vrfs, fmt.Sprintf("%s rd=%s import=%s export=%s ce=%v present=%v", v.name, v.rdString(), c17RTsString(v.imp), c17RTsString(v.exp), v.hasCE, v.present))
 	}
-	return map[string]any{"case": h.idx, "at": at, "peers": peers, "vrfs": vrfs, "rtc_import_policy": h.rtcPolicy, "collide": h.collide, "history": append([]string{}, h.log...)}
+	return map[string]any{"case": h.idx, "at": at, "peers": peers, "vrfs": vrfs, "rtc_import_policy": h.rtcPolicy, "med_import_policy": h.medPolicy, "collide": h.collide, "history": append([]string{}, h.log...)}
 }
 
 func (h *c17Hist) violation(key, what string, at string, extra map[string]any) {
@@ -382,6 +394,7 @@ func (h *c17Hist) inDeferral(p *c17Peer) bool {
 
 func (h *c17Hist) compare(at string) bool {
 	synctest.Wait()
+	h.expireGR()
 	nontrivial := len(h.changes) > 0
 	h.rec.Count("comparisons", 1)
 	if nontrivial {
@@ -603,8 +616,22 @@ func (h *c17Hist) apiTwin(w *c17Route) bool {
 // without ADD-PATH ("every path" vs "best path only"). Every difference at an rtc neighbour that is attributed to
 // one of its own specific-membership events, on an NLRI some source announced with a path id, belongs here.
 func (h *c17Hist) indexClass(p *c17Peer, k simRouteKey, bl string) string {
-	if p.role != c17RTC || !h.apKeys[c17KeyScope(k.Family, k.Prefix)] {
+	if p.role != c17RTC {
 		return bl
+	}
+	// a second root cause with the same symptom: soft-reset-in feeds the very same path object to the table again
+	refed := false
+	for _, rt := range h.m.routes {
+		if rt.fam == k.Family && rt.key == k.Prefix && rt.refed {
+			refed = true
+		}
+	}
+	if !refed && !h.apKeys[c17KeyScope(k.Family, k.Prefix)] {
+		return bl
+	}
+	cls := "vpn-index-addpath-nlri"
+	if refed {
+		cls = "vpn-index-after-soft-reset-in"
 	}
 	kind := bl
 	for _, pre := range []string{"non-best-path:", "ghost-version:", "not-in-vpn-index:", "sent-on-", "withdrawn-on-", "after-"} {
@@ -614,9 +641,9 @@ func (h *c17Hist) indexClass(p *c17Peer, k simRouteKey, bl string) string {
 		return bl
 	}
 	if strings.HasPrefix(kind, "membership-announce") && !strings.Contains(kind, "rejected") {
-		return "vpn-index-addpath-nlri:on-membership-announce"
+		return cls + ":on-membership-announce"
 	}
-	return "vpn-index-addpath-nlri:on-membership-withdraw"
+	return cls + ":on-membership-withdraw"
 }
 
 // versionClass qualifies a version gobgp announced when it was not due: one that no source announced any more at
@@ -874,14 +901,18 @@ func c17History(t *testing.T, rec *vlib.Rec, idx int) {
 		if h.rtcPolicy {
 			rec.Count("histories_with_rtc_import_policy", 1)
 		}
+		if h.medPolicy {
+			rec.Count("histories_with_modifying_import_policy", 1)
+		}
 	}()
 	h.rtcPolicy = r.IntN(2) == 0
+	h.medPolicy = r.IntN(2) == 0
 	h.collide = r.IntN(6) == 0
 	h.genVrfs()
 	h.peers = h.genPeers()
 	h.genPools()
-	if h.rtcPolicy {
-		if err := h.installRTCPolicy(); err != nil {
+	if h.rtcPolicy || h.medPolicy {
+		if err := h.installPolicies(); err != nil {
 			rec.Inconclusive("c17: policy: " + err.Error())
 			return
 		}
